@@ -1,6 +1,7 @@
 package main
 
 import (
+	"context"
 	"fmt"
 	"net/netip"
 	"sort"
@@ -344,10 +345,12 @@ func runC16(c *Ctx) error {
 						}
 					}
 				}
-				// only links the registry still knows can be required to be found: a link refused at AddLink or already removed is not "established"
+				// established = the handshake completed (the link knows its peer and has a switch label); at a
+				// quiescent point such a link is either closing (refused by the registry, closed locally or
+				// remotely, broken) or must be found through the registry
 				var est []peering.Link
 				for _, l := range live {
-					if !l.IsClosing() && n.pe.GetLink(l.Peer()) == l {
+					if !l.IsClosing() && l.Peer().IsValid() && l.SwitchLabel() != 0 {
 						est = append(est, l)
 					}
 				}
@@ -370,7 +373,22 @@ func runC16(c *Ctx) error {
 			}
 			key := pairKey{i, j}
 			ev := ""
-			switch c.Rng.IntN(6) {
+			switch c.Rng.IntN(7) {
+			case 6:
+				// a router whose (valid, self-certifying) address lies in the privacy range dials in: the handshake
+				// succeeds, the registry refuses the link (no route can be held for that address) — the refused
+				// incoming link must not stay behind as an established, not-closing link
+				ev = "connect-from-unroutable-address"
+				uid, _, uerr := m.GenerateRoutableAddress(context.Background(), []netip.Prefix{m.PrivacyAddressPrefix}, nil, 0)
+				if uerr != nil {
+					continue
+				}
+				U, uerr := w.addNode(fmt.Sprintf("u%d", ei), relayStore, uid)
+				if uerr != nil {
+					continue
+				}
+				p, _ := linkNodes(w, U, nodes[i], nil, nil)
+				pairs[key] = append(pairs[key], p)
 			case 0, 1:
 				ev = "connect"
 				a, b := nodes[i], nodes[j]
